@@ -38,7 +38,7 @@ RULE = ("all registered (message, block, variable) serializers; int-typed: every
         "context, raw/payload) cases that decoded to something other than UNSERIALIZABLE")
 ASSUMPTIONS = [
     "registrations whose variable no longer exists in the message template are listed and skipped",
-    "date adapters may reject raws outside year 1..9999 (counted, must be a minority)",
+    "date adapters may reject raws outside year 1..9999 (counted; at least 200 raws per date field must have been accepted)",
     "literal law: repr() of the plain-data form must ast.literal_eval back to an equal value that encodes to the "
     "same bytes; values containing non-finite floats are excluded from this clause",
     "for accepted foreign payloads one decode-encode pass must reach a fixed point that decodes to the same value",
@@ -224,9 +224,13 @@ def check_int_key(ctx, rng, key, ser, var):
                 ctx.nontrivial((key, label, raw))
                 if pod:
                     check_literal(ctx, key, label, ser, block, d, raw, wit)
-    if tried and rejected * 2 > tried:
-        ctx.violation(f"int-decode-rejects-majority:{name}", "the serializer rejects most integers of the wire type",
-                      {"key": list(key), "rejected": rejected, "tried": tried})
+    if is_date:
+        # a date adapter may refuse raws outside year 1..9999 (most of a uniformly drawn U64); that is a reach question,
+        # not a verdict: enough raws must have been accepted for the round-trip law to have been exercised
+        ctx.count("date_raws_accepted", tried - rejected)
+        ctx.count("date_raws_rejected", rejected)
+        if tried - rejected < 200:
+            ctx.inconclusive_because(f"date serializer {key} accepted only {tried - rejected} of {tried} raws")
     # Block API: cache invalidation + serialize_var
     block = contexts_for(key, ser)[0][1]
     vname = key[2]
